@@ -24,7 +24,7 @@ ASSUMPTIONS = [
     "bosonic multi-weight states: the uncertainty relation is checked on the total covariance matrix (necessary condition)",
 ]
 REQUIRED_LABELS = {"all": ["backend:gaussian", "backend:bosonic", "backend:fock", "step:passive", "step:unitary", "step:loss",
-                           "fock_pure", "fock_mixed", "step:passive_exact"]}
+                           "fock_pure", "fock_mixed", "step:passive_exact", "step:postselected_homodyne", "step:postselected_heterodyne"]}
 
 PASSIVE = {"Rgate", "BSgate", "MZgate", "sMZgate", "Fouriergate"}
 UNITARY = PASSIVE | {"Dgate", "Sgate", "S2gate", "Xgate", "Zgate", "Pgate", "CXgate", "CZgate", "Kgate", "CKgate", "Vgate"}
@@ -56,6 +56,14 @@ def ps_case(draw):
     n = draw(st.integers(1, 4))
     hbar = draw(st.sampled_from(c01.HBARS))
     ops_ = draw(gen.op_list(n, c01.ALPH_G2, "ps", 2, 8))
+    # post-selected measurements: the conditional state left behind has to be physical too
+    for _ in range(draw(st.sampled_from([0, 0, 1, 2]))):
+        m = draw(st.integers(0, n - 1))
+        if draw(st.booleans()):
+            mo = ["MeasureHomodyne", [draw(gen.angle())], [m], {"select": draw(gen.fl(-1.5, 1.5)) * np.sqrt(hbar / 2)}]
+        else:
+            mo = ["MeasureHeterodyne", [], [m], {"select": {"re": draw(gen.fl(-1.0, 1.0)), "im": draw(gen.fl(-1.0, 1.0))}}]
+        ops_.insert(draw(st.integers(1, len(ops_))), mo)
     return {"n": n, "hbar": hbar, "ops": ops_}
 
 
@@ -76,6 +84,8 @@ def check_ps(ctx, case):
                 return ctx.crash(exc, be + "." + op[0])
             ran = True
             labels.add("backend:" + be)
+            if op[0].startswith("Measure"):
+                labels.add("step:postselected_" + op[0][7:].lower())
             mu, V, info = sfrun.moments_of(st_, be, hbar)
             sc = 1.0 + float(np.max(np.abs(V))) / (hbar / 2)
             raw = np.array(st_.cov() if be == "gaussian" else np.asarray(st_.covs())[0])
